@@ -854,3 +854,22 @@ package tlog
 //@     invariant 0 - 1 <= @idx && @idx < len(f)
 //@     decreases len(f) - @idx
 //@   props C10
+
+//@ # ====================== hashes as text (C09: hashes survive their text encoding) ======================
+//@ func Hash.String
+//@   allocates
+//@   ensures [C09] hash_text: result == B64(string(h))
+//@   props C09
+//@ # what ParseHash accepts and returns: standard base64 of exactly 32 bytes, and the hash with those bytes
+//@ spec func PHOK(s string) bool = B64DOK(s) && len(B64D(s)) == 32
+//@ func ParseHash
+//@   allocates
+//@   ensures [C09] accepts_32_byte_base64: (result1 == nil) == PHOK(s)
+//@   ensures [C09] parsed_hash: result1 == nil ==> result0 == HASHV(B64D(s))
+//@   hint exit string(result0)
+//@   uses hash_bytes
+//@   props C09
+//@ lemma hash_text_roundtrip(h Hash)
+//@   ensures PHOK(B64(string(h))) && HASHV(B64D(B64(string(h)))) == h
+//@   uses b64_roundtrip hash_bytes
+//@   props C09
